@@ -34,7 +34,8 @@ func inputFields(kind string, nt int, h *synth.Hist, G, S int, cfg runCfg) []Sx 
 	if cfg.prior != nil {
 		pc := cfg.prior
 		pf := []Sx{T("dist", I(pc.dist)), T("thr", I(pc.thr)), T("disk", B(pc.disk)), faultSx(*pc), T("clean", B(pc.cleanDir))}
-		if pc.hist != nil {
+		pf = append(pf, T("samepipe", B(pc.samePipe)), T("upto", I(pc.upto)))
+		if pc.hist != nil && !pc.samePipe {
 			pf = append(pf, histSx(pc.hist))
 		}
 		fields = append(fields, T("prior", pf...))
@@ -47,7 +48,7 @@ func journal(h *synth.Hist, G, S int, cfg runCfg) {
 		return
 	}
 	phase := "run"
-	if cfg.dist == 0 {
+	if cfg.dist == 0 && (cfg.prior == nil || cfg.prior.dist == 0) {
 		phase = "base"
 	}
 	fields := inputFields("crash", 1, h, G, S, cfg)
